@@ -44,22 +44,22 @@ func (r *registry) handleBlobGet(ctx context.Context, resp http.ResponseWriter, 
 		// stimulate the backend to start sending the whole stream
 		// only to abandon it.
 		desc, err := r.backend.ResolveBlob(ctx, rreq.Repo, ociregistry.Digest(rreq.Digest))
-		if err != nil {
-			// TODO this might not be the best response because ResolveBlob is
-			// often implemented with a HEAD request that can't return an error
-			// body. So it might be better to fall through to the usual GetBlob request,
-			// although that would mean that every error makes two calls :(
-			return err
-		}
-		locs, err := r.opts.LocationsForDescriptor(false, desc)
-		if err != nil {
-			return err
-		}
-		if len(locs) > 0 {
-			// TODO choose randomly from the set of locations?
-			// TODO make it possible to turn off this behaviour?
-			http.Redirect(resp, req, locs[0], http.StatusTemporaryRedirect)
-			return nil
+		// ResolveBlob is often implemented with a HEAD request that can't
+		// return an error body, so when it fails we don't return its error:
+		// we fall through to the usual GetBlob request, whose error holds
+		// everything the backend has to say (at the cost of two calls
+		// for every error).
+		if err == nil {
+			locs, err := r.opts.LocationsForDescriptor(false, desc)
+			if err != nil {
+				return err
+			}
+			if len(locs) > 0 {
+				// TODO choose randomly from the set of locations?
+				// TODO make it possible to turn off this behaviour?
+				http.Redirect(resp, req, locs[0], http.StatusTemporaryRedirect)
+				return nil
+			}
 		}
 	}
 	ranges, err := parseRange(req.Header.Get("Range"))
